@@ -25,15 +25,15 @@ CONSTANTS Depth,
           Focus,               \* "all", or "objects": only instance actions (simulation that concentrates on instance isolation)
           Emit
 
-Params == {"A", "B", "A2"}           \* finite-screen parameter sets; N(A) = 4, N(B) = 6; A2 = A with r0 changed in the 6th digit
-NOf(p) == IF p = "B" THEN 6 ELSE 4
+Params == {"A", "B", "A2"}           \* finite-screen parameter sets; N(A) = 4, N(B) = 5 (odd); A2 = A with r0 changed in the 6th digit
+NOf(p) == IF p = "B" THEN 5 ELSE 4        \* B is an ODD grid
 IntSeeds == {0, 1, 2}          \* integer seeds (0 is a legitimate seed); in the log: -1 = the Generator object G, -2 = None
 Objs == {"o1", "o2", "o3", "o4", "o5"}
 \* object configurations: o1 and o2 are twins (same class, parameters and seed); o3 is a Fried screen; o4 has the geometry,
 \* outer scale and seed of the twins but another r0; o5 is a larger von Karman screen
-ObjCfg(o) == CASE o = "o3" -> [variant |-> "fried", seed |-> 2, nx |-> 5, slen |-> 10, r0 |-> 1]
+ObjCfg(o) == CASE o = "o3" -> [variant |-> "fried", seed |-> 0, nx |-> 5, slen |-> 10, r0 |-> 1]      \* seed 0 is a seed
                [] o = "o4" -> [variant |-> "vk", seed |-> 1, nx |-> 4, slen |-> 4, r0 |-> 2]
-               [] o = "o5" -> [variant |-> "vk", seed |-> 3, nx |-> 6, slen |-> 6, r0 |-> 1]
+               [] o = "o5" -> [variant |-> "vk", seed |-> 3, nx |-> 7, slen |-> 7, r0 |-> 1]                         \* odd size
                [] OTHER -> [variant |-> "vk", seed |-> 1, nx |-> 4, slen |-> 4, r0 |-> 1]
 
 VARIABLES glob,      \* numpy's global stream: [epoch, pos]; epoch changes at every numpy.random.seed
